@@ -73,9 +73,9 @@ Proof. exact at_neg_voluntary_first. Qed.
 Print Assumptions C01_voluntary_first.
 
 (* The literal reading of that clause also counts voluntary features the
-   advertisement named while their prerequisites did not hold (they never enter
-   the cache).  It is false of the code: after a voluntary feature changed the
-   state, a required one is taken while such a feature is eligible by now. *)
+   advertisement named that a later child of the same name space replaced in the
+   cache.  It is false of the code: a required feature is taken while such a
+   feature is open. *)
 Definition C01_voluntary_first_literal_statement : Prop := voluntary_first_literal_statement.
 
 Theorem C01_voluntary_first_literal_refuted : ~ C01_voluntary_first_literal_statement.
@@ -93,30 +93,47 @@ Proof. exact voluntary_first_literal_partial. Qed.
 Print Assumptions C01_voluntary_first_literal_partial.
 
 (* State bits only ever get added, and only by successful negotiations: the
-   state a Negotiate call sees is EXACTLY the initial bits plus the masks of the
-   successful calls before it on this session ([acc_bits]); hence it contains
-   the initial bits, the bits seen by every earlier call and the mask of every
-   earlier successful call; the final state is that, plus possibly Ready. *)
+   state a Negotiate call sees is EXACTLY the initial bits plus the masks (Ready
+   apart: it takes effect when the feature set is done) of the successful calls
+   before it on this session ([acc_bits]); hence it contains the initial bits,
+   the bits seen by every earlier call and the mask of every earlier successful
+   call.  The final state is that, plus possibly Ready, when the run does not end
+   in an error — and that without Ready when it does. *)
 Theorem C01_bits_monotone :
   forall c bits clear tls outs choices,
   let r := run c bits clear tls outs choices in
   (forall pre post f st o, trace r = pre ++ ENeg f st o :: post ->
-     st = acc_bits bits pre /\ has st bits = true /\ has (r_bits r) (after_neg st o) = true) /\
+     st = acc_bits bits pre /\ has st bits = true) /\
   (forall pre f1 st1 o1 mid f2 st2 o2 post,
      trace r = pre ++ ENeg f1 st1 o1 :: mid ++ ENeg f2 st2 o2 :: post -> has st2 (after_neg st1 o1) = true) /\
-  has (r_bits r) bits = true /\
-  (r_bits r = acc_bits bits (trace r) \/ r_bits r = N.lor (acc_bits bits (trace r)) st_Ready).
+  match r_class r with
+  | RErr _ => r_bits r = clear_ready (acc_bits bits (trace r))
+  | _ => r_bits r = acc_bits bits (trace r) \/ r_bits r = N.lor (acc_bits bits (trace r)) st_Ready
+  end /\
+  ((forall e, r_class r <> RErr e) ->
+   has (r_bits r) bits = true /\
+   forall pre post f st o, trace r = pre ++ ENeg f st o :: post -> has (r_bits r) (after_neg st o) = true).
 Proof.
   exact (fun c bits clear tls outs choices =>
     conj (fun pre post f st o E =>
             conj (neg_sees_accounted c bits clear tls outs choices pre post f st o E)
-              (conj (neg_sees_initial_bits c bits clear tls outs choices pre post f st o E)
-                    (final_bits_contain_neg c bits clear tls outs choices pre post f st o E)))
+                 (neg_sees_initial_bits c bits clear tls outs choices pre post f st o E))
          (conj (neg_sees_earlier_neg c bits clear tls outs choices)
-               (conj (final_bits_contain_initial c bits clear tls outs choices)
-                     (final_bits_accounted c bits clear tls outs choices)))).
+               (conj (final_bits_accounted c bits clear tls outs choices)
+                     (fun Hne => conj (final_bits_contain_initial c bits clear tls outs choices Hne)
+                                      (fun pre post f st o => final_bits_contain_neg c bits clear tls outs choices pre post f st o Hne))))).
 Qed.
 Print Assumptions C01_bits_monotone.
+
+(* The converse half of "established only with the ready bit set": a run that
+   ends in an error never reports Ready — whatever masks the features negotiated
+   before the failing step returned. *)
+Theorem C01_error_never_ready :
+  forall c bits clear tls outs choices e,
+  r_class (run c bits clear tls outs choices) = RErr e ->
+  has (r_bits (run c bits clear tls outs choices)) st_Ready = false.
+Proof. exact error_never_ready. Qed.
+Print Assumptions C01_error_never_ready.
 
 (* ... and the state written into / read with every list and item is at least
    what the events before it determine. *)
@@ -151,9 +168,8 @@ Print Assumptions C01_restart_monitor.
 Definition C01_established_sound_statement : Prop := established_sound_statement.
 
 (* ... is false of the code as it is: a required feature whose own mask contains
-   Ready ends the negotiation while another eligible required feature of the same
-   advertisement is pending; a feature returning Ready together with a new
-   connection ends it before the restart. *)
+   Ready (the resource-binding pattern) ends the negotiation while another
+   eligible required feature of the same advertisement is pending. *)
 Theorem C01_established_sound_refuted : ~ C01_established_sound_statement.
 Proof. exact established_sound_false. Qed.
 Print Assumptions C01_established_sound_refuted.
@@ -165,16 +181,10 @@ Theorem C01_established_sound_refuted_required_pending :
 Proof. exact established_sound_refuted_required. Qed.
 Print Assumptions C01_established_sound_refuted_required_pending.
 
-Theorem C01_established_sound_refuted_restart_pending :
-  exists c bits clear tls outs choices,
-    let r := run c bits clear tls outs choices in
-    r_class r = ROk /\ q_need_header (final (c_feats c) (c_ws c) (mon0 bits) (trace r)) = true.
-Proof. exact established_sound_refuted_restart. Qed.
-Print Assumptions C01_established_sound_refuted_restart_pending.
-
-(* What holds: established implies Ready and all accumulated bits; and unless
-   some feature's own mask contained Ready, no restart is pending and no eligible
-   required feature of the last advertisement is left un-negotiated. *)
+(* What holds: established implies Ready, all accumulated bits and NO restart
+   pending (whatever the features' own masks said); and unless some feature's
+   own mask contained Ready, no eligible required feature of the last
+   advertisement is left un-negotiated. *)
 Theorem C01_established_sound_partial :
   forall c bits clear tls outs choices,
   let r := run c bits clear tls outs choices in
@@ -182,24 +192,22 @@ Theorem C01_established_sound_partial :
 Proof. exact clause_established_partial. Qed.
 Print Assumptions C01_established_sound_partial.
 
-(* The same with its hypothesis read off the trace: if no successful Negotiate
-   call returned Ready in its own mask, an established session has no restart
-   pending and no eligible required feature of the last advertisement open. *)
+(* The same with its hypothesis read off the trace. *)
 Theorem C01_established_sound_partial_trace :
   forall c bits clear tls outs choices,
   let r := run c bits clear tls outs choices in
   let q := final (c_feats c) (c_ws c) (mon0 bits) (trace r) in
   r_class r = ROk ->
-  has (r_bits r) st_Ready = true /\
-  (self_ready (trace r) = false -> q_need_header q = false /\ ~ pending q).
+  has (r_bits r) st_Ready = true /\ q_need_header q = false /\
+  (self_ready (trace r) = false -> ~ pending q).
 Proof. exact established_when_no_self_ready. Qed.
 Print Assumptions C01_established_sound_partial_trace.
 
 (* The literal reading of "no eligible mandatory feature of the last
    advertisement left un-negotiated" counts every configured feature the last
-   advertisement marked required whose prerequisites hold NOW, also one whose
-   prerequisites did not hold when it was advertised (it never entered the
-   cache).  It implies the cache reading ... *)
+   advertisement marked required whose prerequisites hold now, also one that a
+   later child of the same name space replaced in the cache (the cache is a map
+   keyed by name space).  It implies the cache reading ... *)
 Theorem C01_pending_cache_implies_literal :
   forall fs ws bits tr, let q := final fs ws (mon0 bits) tr in pending q -> pending_adv q.
 Proof. exact pending_is_pending_adv. Qed.
@@ -220,8 +228,8 @@ Theorem C01_established_literal_refuted_witness :
 Proof. exact established_literal_refuted. Qed.
 Print Assumptions C01_established_literal_refuted_witness.
 
-(* ... what holds: such a feature was not an entry of the cache (not eligible
-   when it was advertised, or replaced by a later child of the same name space). *)
+(* ... what holds: such a feature is not an entry of the cache (it was replaced
+   by a later child of the same name space: two configured features share one). *)
 Theorem C01_established_literal_partial :
   forall c bits clear tls outs choices,
   let r := run c bits clear tls outs choices in
